@@ -21,7 +21,7 @@ import xarray as xr
 import facegrid as fg
 from common import dyadic_array, exc_kind
 
-RULE = ("scenarios simple / faces / faces3 (three axes, sparse link table) / metrics / transform; sequences of 1-3 operations from "
+RULE = ("scenarios simple / faces / faces3 (three axes, sparse link table) / comodo (autoparsed dataset) / metrics / transform; sequences of 1-3 operations from "
         "diff, interp, min, max, cumsum (scalar, multi-axis, dict kwargs), vector diff/interp with "
         "other_component, pad, derivative, integrate, average, cumint, get_metric, interp_like, transform "
         "(anonymous target_data, conservative), constructor with dict arguments; non-trivial = the sequence "
@@ -29,15 +29,20 @@ RULE = ("scenarios simple / faces / faces3 (three axes, sparse link table) / met
 TIE = "translator (static write-site extraction) + runtime snapshot monitor"
 
 
+def tattrs(attrs):
+    """attributes with their types: 0.5, np.float32(0.5) and "0.5" are three different things"""
+    return {str(k): (type(v).__name__, repr(v)) for k, v in attrs.items()}
+
+
 def snap(obj):
     if isinstance(obj, xr.DataArray):
         return ("da", obj.name, tuple(obj.dims), np.array(obj.values, copy=True).tolist(),
-                {str(k): (tuple(v.dims), np.array(v.values, copy=True).tolist(), dict(v.attrs)) for k, v in obj.coords.items()},
-                copy.deepcopy(dict(obj.attrs)))
+                {str(k): (tuple(v.dims), np.array(v.values, copy=True).tolist(), tattrs(v.attrs)) for k, v in obj.coords.items()},
+                tattrs(obj.attrs))
     if isinstance(obj, xr.Dataset):
         return ("ds", {str(k): snap(v) for k, v in obj.variables.items() if isinstance(v, xr.DataArray) or True and False}
-                or sorted(map(str, obj.variables)), copy.deepcopy(dict(obj.attrs)),
-                {str(k): (tuple(obj[k].dims), np.array(obj[k].values, copy=True).tolist(), dict(obj[k].attrs)) for k in obj.variables})
+                or sorted(map(str, obj.variables)), tattrs(obj.attrs),
+                {str(k): (tuple(obj[k].dims), np.array(obj[k].values, copy=True).tolist(), tattrs(obj[k].attrs)) for k in obj.variables})
     if isinstance(obj, dict):
         return ("dict", [(repr(k), snap(v)) for k, v in obj.items()])
     if isinstance(obj, (list, tuple)):
@@ -56,9 +61,10 @@ def grid_state(grid):
 
 OPS = {
     "simple": ["diff", "interp", "min", "max", "cumsum", "diff2", "pad", "vecdiff", "ctor", "interp_dicts",
-               "min_unpadded", "max_unpadded", "diff_unpadded", "min_to_inner"],
+               "min_unpadded", "max_unpadded", "diff_unpadded", "min_to_inner", "interp_to_none", "diff_to_none"],
     "faces": ["fdiff", "finterp", "fvecdiff", "fvecinterp", "fpad", "fvecpad", "ctor_faces"],
     "faces3": ["fdiff", "finterp", "fdiffz", "fcumsumz", "fpad", "fpadz", "fdiff2d"],
+    "comodo": ["ctor_autoparse", "ctor_autoparse", "cdiff"],
     "metrics": ["derivative", "integrate", "average", "cumint", "get_metric", "interp_like", "mw_diff",
                 "get_metric_v", "integrate_v", "average_u"],
     "transform": ["t_linear_anon", "t_linear", "t_conservative", "t_log"],
@@ -103,6 +109,7 @@ def build(case):
         w["vecX"] = {"X": w["u"]}
         w["otherY"] = {"Y": w["v"]}
         w["to"] = {"X": "left", "Y": "left"}
+        w["to_none"] = {"X": "left", "Y": None}        # "no target chosen for Y": the default shift applies
         w["call_boundary"] = {"X": "fill"}
         w["call_fill"] = {"X": 3.0}
         w["mw"] = {"X": ("X",)}
@@ -126,6 +133,19 @@ def build(case):
         w["vecX"] = {"X": w["u"]}
         w["otherY"] = {"Y": w["v"]}
         w["bw"] = {"X": (1, 1), "Y": (1, 0)}
+    elif scen == "comodo":
+        # a dataset annotated for autoparsing; the shift attributes come as the types real files carry
+        # (strings from old writers, numpy scalars from netCDF readers)
+        n = 4
+        shift = rr.choice(["-0.5", np.float32(-0.5), np.float64(-0.5), -0.5])
+        ds = xr.Dataset(coords={
+            "xc": xr.DataArray(np.arange(n) + 0.5, dims=["xc"], attrs={"axis": "X"}),
+            "xg": xr.DataArray(np.arange(n) * 1.0, dims=["xg"], attrs={"axis": "X", "c_grid_axis_shift": shift}),
+            "yc": xr.DataArray(np.arange(3) + 0.5, dims=["yc"], attrs={"axis": "Y"}),
+            "yg": xr.DataArray(np.arange(3) * 1.0, dims=["yg"], attrs={"axis": "Y", "c_grid_axis_shift": rr.choice([0.5, "0.5", np.float32(0.5)])})})
+        w["ctor_kwargs"] = dict(periodic=False)
+        grid = xgcm.Grid(ds.copy(deep=True), **w["ctor_kwargs"])
+        w["c"] = xr.DataArray(dyadic_array(rr, [n, 3]), dims=["xc", "yc"], name="c")
     elif scen == "faces3":
         # three axes; the table names an axis only for the faces that have a link along it (an omitted
         # entry means "no links"), and never names Z
@@ -176,6 +196,10 @@ def do(op, w):
         return g.cumsum(w["c"], ["X", "Y"], to=w["to"], boundary=w["call_boundary"], fill_value=w["call_fill"])
     if op == "diff2":
         return g.diff(w["c"], ["Y", "X"], to=w["to"], fill_value=w["call_fill"])
+    if op == "interp_to_none":
+        return g.interp(w["c"], ["X", "Y"], to=w["to_none"])
+    if op == "diff_to_none":
+        return g.diff(w["c"], ["Y", "X"], to=w["to_none"])
     if op == "min_unpadded":           # shifts that need no padding hand the caller's own buffer to the kernel
         return g.min(w["co"], "Y", to="center")
     if op == "max_unpadded":
@@ -205,6 +229,12 @@ def do(op, w):
         return g.diff(w["c"], "X", to="left")
     if op == "finterp":
         return g.interp(w["c"], "Y", to="left")
+    if op == "ctor_autoparse":
+        import xgcm
+        g2 = xgcm.Grid(w["ds"], **w["ctor_kwargs"])
+        return xr.DataArray(np.array([len(g2.axes)], dtype=float), dims=["n"])
+    if op == "cdiff":
+        return g.diff(w["c"], "X")
     if op == "fdiffz":
         return g.diff(w["c3"], "Z", to="left", boundary="fill")
     if op == "fcumsumz":
